@@ -81,13 +81,29 @@ T = {
  "C14f": ("C14", "plan() re-plans when a stored parameter signature differs; with force_target_nf the signature is taken before Jdes is overwritten", "force_target_nf=True and more than one plan()/compute() on one analyzer", [], ""),
  "C17f": ("C17", "cascade kernel processes 65536-sample blocks; the tail restarts from the state before the call", "one request (or cascade call) of n > 65536 samples, n not a multiple of 65536", [], "scale-dependent: needed the long-request part of C17"),
  "C20b": ("C20", "class-level default _cache plus __getstate__ dropping _cache: clones share one cache", "clones of two different results in one process", [], ""),
+ "C02d": ("C02", "plan validation exempts LPSD from the Lmin test by resolved *name* == 'lpsd' instead of by function", "scheduler passed as the function lpsd_plan (name 'lpsd_plan') and an analyzer Lmin > 1", [], "missed at first: the analyzer route only named schedulers by string and ran lpsd with Lmin=1 -> callable form and configured-but-ignored Lmin/bmin added"),
+ "C03d": ("C03", "new_ltf_plan bmin-enforcement branch truncates fs/fres instead of rounding", "new_ltf, bmin branch taken, fractional part of bmin*fs/f >= 0.5", [], ""),
+ "C04f": ("C04", "bins with >= 65536 segments build starts with astype(int64) (truncation, the +0.5 forgotten)", "ltf/lpsd, N > 65536, high overlap, non-integer step", [], "scale-dependent: needed the N=200000, olap=0.9 spot shard of C04"),
+ "C06c": ("C06", "window rescaled to unit peak after S1/S2 were taken", "odd segment lengths with the Kaiser window (peak tap < 1)", [], ""),
+ "C07d": ("C07", "order-0 Numba kernels switch to a direct phasor sum with exp(+iwn) when |sin w| < 1e-4", "numba, cross, order 0, f/fs < 1.6e-5 (lowest bins of records of > 60000 samples)", [], "scale-dependent at analysis level; reached at kernel level by adding frequencies with |sin w| < 1e-4 to C01 and C07"),
+ "C08d": ("C08", "_build_Q memoised per L only; an order-2 basis is served to a later order-1 request", "order-2 analysis followed by an order-1 analysis with a common L in one process", [], "C14 needed order=1 among the pair-history configurations"),
+ "C09c": ("C09", "coh forced to exactly 1 where navg == 1, also where the guard had produced 0 (zero first channel)", "single-segment bin and a first channel that is exactly zero there", [], "missed at first: the conditioned-spectra identities were only evaluated for (x,y), never for the swapped pair (zero channel first), and only on well-conditioned bins"),
+ "C10d": ("C10", "Hxy_rad_error = arcsin(sqrt(1-coh)) without abs", "coherence estimate rounding above 1 (linearly dependent channels)", [], ""),
+ "C11c": ("C11", "empirical deviations scaled by 1/(fs*S2) instead of 2/(fs*S2) at f=0 and f>=fs/2", "compute_single_bin at DC or Nyquist", [], ""),
+ "C12d": ("C12", "symmetric np.kaiser(L) instead of the DFT-even kaiser(L+1)[:-1]", "short segments, high psll, analysis frequency just past the main-lobe edge", [], ""),
+ "C13c": ("C13", "non-finite scan skipped unless the incoming dtype is floating", "object-dtype arrays / lists with None, nan, inf", [], "missed at first: no object-dtype container in the layout alphabet -> added"),
+ "C15d": ("C15", "q=1 analytic solution written directly as S01/T11 (conjugate cross-spectrum)", "one input, analytic solver, coupling with phase/delay", [], ""),
+ "C16f": ("C16", "constant-shift path switches to scipy.signal.fftconvolve when (N+order)*(order+1) >= 2^24", "records of >= 524257 samples (order 31) with a large dynamic range", [], "scale-dependent: needed the long-record part of C16 with a per-stencil rounding allowance"),
+ "C18c": ("C18", "band mask with strict inequalities plus np.isclose at the edges (default rtol/atol)", "bin spacing below 1e-5 x cutoff (series of ~1e6 samples)", [], "scale-dependent: needed 2^20-sample band-limited series"),
+ "C19f": ("C19", "integral_rms fast path for 'uniform' grids decided by np.allclose(diff, diff[0]) (absolute 1e-8 Hz)", "non-uniform grids with spacings below 1e-8 Hz", [], "unit-dependent: needed the frequency grids in nano-hertz units"),
+
 }
 
 
 def main():
     det = {}
     import re
-    for logf in ("/root/scratch/wave1_detect.log", "/root/scratch/wave2_detect.log", "/root/scratch/wave3_detect.log", "/root/scratch/wave4_detect.log", "/root/scratch/manual_detect.log"):
+    for logf in ("/root/scratch/wave1_detect.log", "/root/scratch/wave2_detect.log", "/root/scratch/wave3_detect.log", "/root/scratch/wave4_detect.log", "/root/scratch/manual_detect.log", "/root/scratch/wave5_final_detect.log"):
         if not os.path.exists(logf):
             continue
         sid = None
